@@ -51,7 +51,12 @@ def specOfJson (j : Json) : Except String ExtSpec := do
     let g ← p.getArrVal? 0 >>= (·.getStr?)
     let fs ← p.getArrVal? 1 >>= (·.getArr?)
     let fields ← fs.toList.mapM (fun f => do
-      pure ({ name := ← f.getObjValAs? String "n", required := ← f.getObjValAs? Bool "req", default := ← f.getObjVal? "def" >>= valOfJson } : FieldSpec))
+      let pat ← match f.getObjValAs? String "pat" with
+        | .ok "cppName" => pure Pat.cppName
+        | .ok "any" => pure Pat.any
+        | .ok other => throw s!"unknown pattern {other}"
+        | .error _ => pure Pat.any
+      pure ({ name := ← f.getObjValAs? String "n", required := ← f.getObjValAs? Bool "req", default := ← f.getObjVal? "def" >>= valOfJson, pat := pat } : FieldSpec))
     pure (g, fields))
 
 def docJ (d : Doc) : Json :=
@@ -105,8 +110,42 @@ def slotOfJson (j : Json) : Except String (Slot String) :=
   | .str "dir" => pure .dir
   | _ => do pure (.file (← j.getObjValAs? String "file"))
 
+def fileResultJ : Option FileResult → Json
+  | none => Json.mkObj [("missing", true)]
+  | some (.ok reg) =>
+    let keyJ := fun (k : List String × String) => Json.arr #[Json.arr (k.1.map Json.str).toArray, Json.str k.2]
+    Json.mkObj [("registered", Json.arr (reg.map (fun en => Json.mkObj [("key", keyJ en.key), ("located", en.located), ("type", extJ en.ext)])).toArray)]
+  | some .invalid => Json.mkObj [("invalid", true)]
+  | some (.duplicate k) => Json.mkObj [("duplicate", Json.arr #[Json.arr (k.1.map Json.str).toArray, Json.str k.2])]
+
+def roundOfJson (j : Json) : Except String Round := do
+  let ws ← j.getObjVal? "written" >>= (·.getArr?)
+  let written ← ws.toList.mapM (fun w => do
+    let p ← w.getArrVal? 0 >>= (·.getStr?)
+    let ds ← w.getArrVal? 1 >>= (·.getArr?)
+    pure (p, ← ds.toList.mapM docOfJson))
+  let es ← j.getObjVal? "externs" >>= (·.getArr?)
+  pure { written := written, externs := ← es.toList.mapM (·.getStr?) }
+
 def handle (op : String) (req : Json) : Except String Json :=
   match op with
+  | "c13.rounds" => do
+    -- a re-export history on one directory tree: what the dependent program of every round registers
+    let spec ← req.getObjVal? "spec" >>= specOfJson
+    let rs ← req.getObjVal? "rounds" >>= (·.getArr?)
+    let rounds ← rs.toList.mapM roundOfJson
+    pure (Json.mkObj [("rounds", Json.arr ((runRounds spec [] rounds).map fileResultJ).toArray),
+                      ("closed", Json.arr (rounds.map (fun r => Json.bool r.closed)).toArray)])
+  | "c13.pattern" => do
+    -- the model of a field's `pattern=` on the given strings
+    let pat ← req.getObjValAs? String "pat"
+    let vs ← req.getObjVal? "values" >>= (·.getArr?)
+    let vals ← vs.toList.mapM (·.getStr?)
+    let p ← match pat with
+      | "cppName" => pure Pat.cppName
+      | "any" => pure Pat.any
+      | other => throw s!"unknown pattern {other}"
+    pure (Json.mkObj [("accepts", Json.arr (vals.map (fun v => Json.bool (p.accepts (.str v)))).toArray)])
   | "c13.export" => do
     let d ← req.getObjVal? "decl" >>= declOfJson
     pure (docJ («export» d))
